@@ -51,11 +51,13 @@ type a2ifsc struct {
 	Tail []byte // extra bytes after the last checksum pair (a partial pair)
 	Drop bool
 	Dup  bool
+	Bare bool // the packet has an empty body: not even the exponent (packet length 64, the minimum)
 }
 type a2recv struct {
 	Exp  uint32
 	Data []byte
 	Dup  bool
+	Bare bool // the packet has an empty body: not even the exponent (packet length 64, the minimum)
 }
 type a2spec struct {
 	Slice       uint64
@@ -202,6 +204,9 @@ func (a *a2spec) volumeRange(lo, hi int) []byte {
 		body := make([]byte, 4, 4+len(rv.Data))
 		binary.LittleEndian.PutUint32(body, rv.Exp)
 		body = append(body, rv.Data...)
+		if rv.Bare {
+			body = nil
+		}
 		p := a.frame("recv", rpar2.TypeRecv, body)
 		pk = append(pk, p)
 		if rv.Dup {
@@ -419,6 +424,16 @@ func init() {
 		add(fmt.Sprintf("recv[all].size=%d", n), func(a *a2spec) {
 			for k := range a.Recvs {
 				a.Recvs[k].Data = make([]byte, n)
+			}
+		})
+	}
+	for _, k := range []int{0, 1, 4, -1} {
+		k := k
+		add(fmt.Sprintf("recv[%d].empty-body", k), func(a *a2spec) {
+			for i := range a.Recvs {
+				if i == k || k < 0 {
+					a.Recvs[i].Bare, a.Recvs[i].Data = true, nil
+				}
 			}
 		})
 	}
@@ -877,7 +892,11 @@ func c19RunP2(c *c19Case, r *core.Rec) {
 		rv := idxSpec.Recvs[0]
 		body := make([]byte, 4, 4+len(rv.Data))
 		binary.LittleEndian.PutUint32(body, rv.Exp)
-		idxPk = append(idxPk, idxSpec.frame("recv", rpar2.TypeRecv, append(body, rv.Data...)))
+		body = append(body, rv.Data...)
+		if rv.Bare {
+			body = nil
+		}
+		idxPk = append(idxPk, idxSpec.frame("recv", rpar2.TypeRecv, body))
 	}
 	fs.Put("/d/s.par2", rpar2.Join(idxPk...))
 	// two volume files (blocks 0-1 and 2-4); where=3 mutates only the second one
